@@ -5,7 +5,7 @@ S=/verif/seeded/$1; P=$2; T=${3:-quick}
 cd /repo && git diff --quiet || { echo "/repo not clean"; exit 2; }
 git -C /repo apply $S/patch.diff || { echo "apply failed"; exit 2; }
 trap 'git -C /repo checkout -- . ' EXIT
-cd /verif && VERIF_NOEVIDENCE=1 bin/check $P $T > /tmp/against_$1_$P.log 2>&1; RC=$?
+mkdir -p /tmp/against; cd /verif && VERIF_EVIDENCE_DIR=/tmp/against/evidence VERIF_REPLAY_DIR=/tmp/against/replays bin/check $P $T > /tmp/against_$1_$P.log 2>&1; RC=$?
 echo "AGAINST $1 $P $T -> exit $RC: $(grep -c '^VIOLATION' /tmp/against_$1_$P.log) violation line(s); $(grep -m1 'key=' /tmp/against_$1_$P.log | cut -c1-200)"
 grep -m1 "MACHINERY" /tmp/against_$1_$P.log | cut -c1-300
 exit $RC
